@@ -322,7 +322,7 @@ class Run:
             # e.g. a restart storm (a program that cannot be spawned with a RESTART strategy): the online monitors
             # have seen everything that happened; the end-of-run oracles are not evaluated
             self.count('runaway_cases')
-            w.max_steps = 10 ** 9
+            w.max_steps = w.max_start_requests = 10 ** 9
             return [v for monitor in self.monitors for v in monitor.violations]
         finally:
             w.close()
